@@ -74,18 +74,31 @@ def items(G):
                 return G.ev(T, n.value), f"{T}:{n.lineno}"
         _unlocated("sig_hash_legacy DEFAULT")
     yield G.nat("Tx", "legacyOne", legacy_one)
+    yield G.nat("Tx", "legacyVersionW", call_arg(T, "Tx.sig_hash_legacy", "int_to_little_endian", 0, 1, "legacy version width"))
     yield G.bytes_("Tx", "legacyBlankOut", bconst(T, "Tx.sig_hash_legacy", 0, "sig_hash_legacy blank output"))
     yield G.nat("Tx", "legacyHashTypeW", lambda: (lambda l: (l[-1][0][1], l[-1][1]))(
         G.calls_const_args(T, "Tx.sig_hash_legacy", "int_to_little_endian")))
     # sig_hash_bip143
+    yield G.nat("Tx", "bip143VersionW", call_arg(T, "Tx.sig_hash_bip143", "int_to_little_endian", 0, 1, "bip143 version width"))
+    yield G.nat("Tx", "bip143IndexW", call_arg(T, "Tx.sig_hash_bip143", "int_to_little_endian", 1, 1, "bip143 prev_index width"))
     yield G.nat("Tx", "bip143AmountW", call_arg(T, "Tx.sig_hash_bip143", "int_to_little_endian", 2, 1, "bip143 value width"))
     yield G.nat("Tx", "bip143HashTypeW", call_arg(T, "Tx.sig_hash_bip143", "int_to_little_endian", 3, 1, "bip143 hash type width"))
     # sig_hash_bip341
+    for k, nm in enumerate(["bip341VersionW", "bip341PrevIndexW", "bip341AmountW", "bip341InputIndexW"]):
+        yield G.nat("Tx", nm, call_arg(T, "Tx.sig_hash_bip341", "int_to_little_endian", k, 1, nm))
     yield G.bytes_("Tx", "bip341Epoch", bconst(T, "Tx.sig_hash_bip341", 0, "bip341 epoch byte"))
     yield G.bytes_("Tx", "bip342Ext", bconst(T, "Tx.sig_hash_bip341", 1, "bip342 key_version + codesep_pos"))
     yield G.nat("Tx", "annexTag", lambda: G.cmp(W, "Witness.has_annex", 0, "Eq"))
     yield G.bytes_("Tx", "tapSighashTag", bconst(PH, "hash_tapsighash", 0, "TapSighash tag"))
     yield G.bytes_("Tx", "tapLeafTag", bconst(PH, "hash_tapleaf", 0, "TapLeaf tag"))
+
+    # ControlBlock.parse length tests: b_len % 32 != 1, b_len < 33, b_len > 33 + 128 * 32
+    def cb_cmp():
+        cs = [c for c in G.compares(TAP, "ControlBlock.parse") if isinstance(c[1], int) and c[3] == "R"]
+        if len(cs) < 3:
+            _unlocated("ControlBlock.parse comparisons")
+        return [(op, v) for op, v, _, _ in cs[:3]], cs[0][2]
+    yield G.strnat("Tx", "cbParseCmp", cb_cmp)
 
     # do the midstate helpers memoise (`if self._hash_prevouts is None:`)?  F05d
     def memo():
